@@ -320,20 +320,21 @@ smallints_unit!(smallints_i16_i32, i16, i32, "i16/i32",
 // ---------------------------------------------------------------- Fenwick
 
 #[derive(Clone, Debug, Serialize, Deserialize)]
-struct FOp(usize, u32);
+struct FOp(usize, i32);
 
 fn fenwick_run(kind: &str, len: usize, ops: &[FOp], cc: &mut CaseCtx) {
     // after every update, every prefix query
-    let mut model = vec![0u32; len];
     if kind == "sum" {
-        let mut t: SumBitTree<u32> = SumBitTree::new(len);
+        // signed element type: updates may be negative or zero
+        let mut model = vec![0i64; len];
+        let mut t: SumBitTree<i32> = SumBitTree::new(len);
         for (n, op) in ops.iter().enumerate() {
             t.set(op.0, op.1);
-            model[op.0] += op.1;
-            let mut acc = 0u32;
+            model[op.0] += op.1 as i64;
+            let mut acc = 0i64;
             for i in 0..len {
                 acc += model[i];
-                let got = t.get(i);
+                let got = t.get(i) as i64;
                 if got != acc {
                     cc.violation("C18/fenwick-sum/prefix-differs", format!("len {} after {} updates get({}) = {} expected {}", len, n + 1, i, got, acc));
                     return;
@@ -342,10 +343,13 @@ fn fenwick_run(kind: &str, len: usize, ops: &[FOp], cc: &mut CaseCtx) {
             cc.outcome(&acc);
         }
     } else {
+        // prefix maximum over an unsigned type (the tree starts from T::default() = 0)
+        let mut model = vec![0u32; len];
         let mut t: MaxBitTree<u32> = MaxBitTree::new(len);
         for (n, op) in ops.iter().enumerate() {
-            t.set(op.0, op.1);
-            model[op.0] = model[op.0].max(op.1);
+            let v = op.1.max(0) as u32;
+            t.set(op.0, v);
+            model[op.0] = model[op.0].max(v);
             let mut acc = 0u32;
             for i in 0..len {
                 acc = acc.max(model[i]);
@@ -366,7 +370,8 @@ fn fenwick_run(kind: &str, len: usize, ops: &[FOp], cc: &mut CaseCtx) {
 fn fenwick_unit(kind: &'static str, tier: Tier, ctx: &mut Ctx) {
     let max_len = tier.pick(9, 17);
     let depth = tier.pick(3, 4);
-    let vals = [1u32, 3, 2];
+    // the sum tree also gets a negative and a zero update; the max tree zero and positive ones
+    let vals: &[i32] = if kind == "sum" { &[1, 3, -2, 0] } else { &[1, 3, 2, 0] };
     for len in 1..=max_len {
         let nops = len * vals.len();
         let mut radices = vec![];
@@ -419,7 +424,7 @@ impl Prop for C18Prop {
                        "push_values_n": tier.pick("1,3,4,10,11,33", "0,1,3,4,9,10,11,32,33"),
                        "values": "1, all-ones, value with a bit above the width, 0", "set_indices": "0,5,9,10,11,31,32 (when in range)"},
             "smallints": {"types": "i8/isize, u8/usize, u8/i64, i16/i32", "depth": tier.pick(4,5), "inits": "new, with_capacity, from_elem(v,n) n in {0,2}"},
-            "fenwick": {"len": format!("1..={}", tier.pick(9,17)), "depth": tier.pick(3,4), "values": "1,3,2", "note": "depth levels whose sequence count exceeds the per-level budget are skipped for that length"}
+            "fenwick": {"len": format!("1..={}", tier.pick(9,17)), "depth": tier.pick(3,4), "values": "sum tree (i32): 1,3,-2,0; max tree (u32): 1,3,2,0", "note": "depth levels whose sequence count exceeds the per-level budget are skipped for that length"}
         })
     }
     fn units(&self, _tier: Tier) -> Vec<String> {
